@@ -44,7 +44,7 @@ func init() {
 			l.P("def %s : Nat := %s", strings.ToLower(n), p.Int(n).String())
 		}
 		// comparison operators, by source text (whitespace-insensitive)
-		norm := func(pk *xt.Pkg, fd *ast.FuncDecl) string { return strings.Join(strings.Fields(pk.Src(fd.Body)), "") }
+		norm := func(pk *xt.Pkg, fd *ast.FuncDecl) string { return pk.Norm(fd.Body) }
 		mw := norm(p, p.Func("", "MedianWeightedPrice"))
 		switch {
 		case strings.Contains(mw, "cumulativeWeight.MulRaw(2).GTE(totalWeight)"):
